@@ -237,6 +237,10 @@ func ParseLql(lql string) (*Lql, error) {
 	if err != nil {
 		return nil, err
 	}
+	if res.Select != nil && res.Select.Range != nil && res.Select.Range.TmPoint1 == nil && res.Select.Range.TmPoint2 == nil {
+		// "RANGE [" alone satisfies the grammar (every part of Range is optional) but names no time point
+		return nil, fmt.Errorf("RANGE needs at least one time point: \"%s\"", lql)
+	}
 	return res, err
 }
 
